@@ -173,6 +173,8 @@ where
             .take()
             .unwrap_or_else(|| Box::new(StdRng::from_os_rng()));
         let start_time = Instant::now();
+        #[cfg(feature = "verif")]
+        let start_time = crate::verif::VirtualInstant::now();
 
         // Main Loop
         loop {
